@@ -85,6 +85,29 @@ claim("C16", "other", "site-discipline analysis over callee-resolved dev-profile
       "A panic, runaway recursion, endless loop or unbounded allocation happens at a site, and the sites are finite and enumerable from MIR although the inputs are not: ~160 panic-class sites, 6 call-graph cycles, ~43 loops, 54 RefCell guards, 11 precondition-bearing library calls. Each is decided for all inputs at once: a site is discharged only if the failing side is infeasible under the value sets E1 derives from the guards in front of it (every explored path, loops havocked), or by a type fact, or because the finite language of the grammar capture is contained in the keys from_str accepts, or by a named invariant whose structural witness is re-checked each run. Recursion needs a constant-bounded depth guard that dominates every call back into the cycle; loops need a finite in-memory iterator created outside the loop or a monotone variant; memory proportional to a number written in the source may only be produced after pass 1 compared that number with the device capacity. Level 'other': 'promptly' as wall-clock time and stack depth in bytes are not decided.",
       "Assumes dependencies do not panic within their documented contracts (the contracts that take arguments are checked), source text fits in memory. Same-typed RefCells are treated as possibly the same cell unless created in the same function.", engine="E0+E1+E2+E3")
 
+# added while building (DESIGN.md §9.3): appended to the level texts above
+ADDED = {
+    "C01": " Also decided: recognition (each of the 114 mnemonics, 64 register spellings, the pointer names and the four addressing forms is matched with the grammar under PEG semantics and must map, through the strum from_str tables read from MIR, to the enum value the encoder row is keyed on) and glue (parsed mnemonic and operands -> Instruction item unchanged; encoder bytes -> fragment -> code -> BuildResult.code as a def-use chain).",
+    "C02": " Also decided: .org/.byte never drop an operand silently (one recorded known finding), the exact effect of the segment directives on the segment list (an .org just stored survives), and that segments opened while splicing a macro expansion carry the expanded segment's own address and type.",
+    "C03": " Findings about the displacement term are required on every success path (a term adjusted on the way is reported); the pc rule is stated per round of the item loop.",
+    "C04": " Also decided: the language of the grammar's register rules is exactly the register names (r0..r31, x/y/z, either case).",
+    "C05": " Also decided: strict evaluation (a value only after every operand evaluated), a bound identifier fails only through its definition or the nesting limit, character constants are not narrowed in the compiled action.",
+    "C06": " Also decided: the length model Operand::len equals the bytes emitted; the fragment pass 2 returns is only ever appended to; a character constant operand keeps its full code point.",
+    "C07": " Also decided: completeness (every chunk taken from the image becomes a Data record on every path) and that the writers, seen as a family with their local helpers, create or truncate the file they write.",
+    "C08": " A branch of skip on the text of a line through anything but the line parser is treated as taken by lines of any class.",
+    "C09": " Also decided: nested binary expressions keep their parentheses (flattening only on the left), headers of the segments opened while splicing, the first-segment decision compares with the output's last segment, every plain item is handed on once and unchanged.",
+    "C10": " Also decided: the pass branches on the label insert's own result, pass 2's item loop runs for every segment, a label on any kind of line is bound before the rest of the line.",
+    "C11": " Also decided: the nested context carries the location that was opened, the file's own directory is added on every path, the included file inherits the includer's directories, the whole text read from the opened file is what is parsed, no Ok before the parser ran.",
+    "C12": " Also decided: the RAM figure is the extent of the data segment and is handed on unchanged; the .device clause (unknown name, second selection, stored row, operand).",
+    "C14": " Also decided: symbol- and macro-table keys are lower-cased; layering rules — nothing in the line pipeline inspects raw line text except through the grammar's code_part rule, whose shape is checked.",
+    "C16": " Cycles that re-enter with looked-up or produced values need a shared work budget (fan-out rule).",
+    "C18": " The writers are analysed as a family with their local helpers; buffered writers need a checked flush.",
+}
+for _pid, _txt in ADDED.items():
+    if P.get(_pid, {}).get("built"):
+        P[_pid]["text"] += _txt
+P["C01"]["note"] = "Trusted: rustc MIR, spec/avr_isa.json, E1 transfer functions + summaries, analysis/peg.py. Expr::run is opaque (C05)."
+
 ENGINES = [
     {"name": "E0 fact driver", "path": "driver/", "serves_properties": sorted(P), "kind_free_text": "rustc_private driver (RUSTC_WORKSPACE_WRAPPER) dumping callee-resolved MIR, ADT/static/impl tables of /repo's two crates as JSON"},
     {"name": "E1 abstract interpreter", "path": "analysis/absint.py", "serves_properties": ["C01", "C02", "C03", "C04", "C05", "C06", "C08", "C12", "C13"], "kind_free_text": "path-sensitive abstract interpretation of MIR: named unknowns, value sets, bit provenance, linear forms; no solver, no execution of /repo"},
